@@ -3,13 +3,16 @@ import rx
 from rx.subject import Subject
 
 
-def drive_plain(ops, chunks, complete=True, error=None, twin=None, twin_mode='before'):
+def drive_plain(ops, chunks, complete=True, error=None, twin=None, twin_mode='before', carrier=None):
     """Push `chunks` one by one through the operator list `ops` (plain observables).
     Returns {'steps': [[outputs emitted while chunk i was pushed]...], 'fin': [outputs at completion],
              'end': 'completed' | 'error:<Type>' | 'open', 'sub': [outputs at subscription]}
     With `twin` (a list of chunks), the SAME operator objects are applied to a second source whose subscription is
     live at the same time (subscribed before the judged one, or after its first chunk with twin_mode='mid'); the
-    twin's chunks are pushed alternately with the judged ones and its outputs are discarded."""
+    twin's chunks are pushed alternately with the judged ones and its outputs are discarded.
+    `carrier` (bytes chunks only): 'bytearray' hands every chunk over as a bytearray that the producer wipes as soon as
+    on_next returns; 'memoryview' as a view of ONE buffer that the producer refills for the next chunk (readinto style).
+    An operator may not keep a reference to a chunk it was given; outputs are snapshotted when they are emitted."""
     src = Subject()
     cur = []
     state = {'end': 'open'}
@@ -30,7 +33,8 @@ def drive_plain(ops, chunks, complete=True, error=None, twin=None, twin_mode='be
         push_twin()
 
     def on_next(x):
-        cur.append(x)
+        cur.append(bytes(x) if carrier else x)
+    reuse = bytearray(max([len(c) for c in chunks] + [1])) if carrier == 'memoryview' else None
 
     def on_error(e):
         state['end'] = 'error:' + type(e).__name__
@@ -49,7 +53,17 @@ def drive_plain(ops, chunks, complete=True, error=None, twin=None, twin_mode='be
             if twin_mode == 'before' or k >= 1:
                 push_twin()
         try:
-            src.on_next(c)
+            if carrier == 'bytearray':
+                ba = bytearray(c)
+                src.on_next(ba)
+                ba[:] = b'\xee' * len(ba)
+            elif carrier == 'memoryview':
+                reuse[:len(c)] = c
+                mv = memoryview(reuse)[:len(c)]
+                src.on_next(mv)
+                reuse[:] = b'\xee' * len(reuse)
+            else:
+                src.on_next(c)
         except Exception as e:      # exception escaping through the source's on_next
             state['end'] = 'raised:' + type(e).__name__
             steps.append(list(cur))
